@@ -207,8 +207,8 @@ def run(prog, tier, extra=None):
                     chb = chb or Chaser(b)
                     e = chb.rvalue(st[2], 0)
                     kind = "other"
-                    if e[0] == "const":
-                        kind = "reset"
+                    if e[0] == "const" or not has_field(e, MEMPOOL, "routing_work_in_mempool"):
+                        kind = "reset"      # assigned a value that does not depend on the old one: reset or recompute from scratch
                     for x in walk(e):
                         if x[0] == "bin" and x[1].startswith("Add"):
                             kind = "add"
